@@ -11,6 +11,18 @@ From Verif Require Import Lib.Bytes Lib.Assoc Lib.Sorting Model.ServiceTrigger G
 Import ListNotations.
 Open Scope Z_scope.
 
+(* Decide a goal between boolean expressions over Z comparisons: destruct every comparison atom
+   with its specification, simplify the boolean structure, close the contradictory cases with
+   lia.  `a < b` written as `negb (b <=? a)`, a test moved, an if/return chain turned into one
+   returned expression all end in the same cases. *)
+Ltac split_atoms :=
+  repeat match goal with
+         | |- context [Z.eqb ?a ?b] => destruct (Z.eqb_spec a b)
+         | |- context [Z.ltb ?a ?b] => destruct (Z.ltb_spec a b)
+         | |- context [Z.leb ?a ?b] => destruct (Z.leb_spec a b)
+         end;
+  cbn [negb andb orb Bool.eqb]; try reflexivity; try (exfalso; lia).
+
 (* ------------------------------------------------------------------------------------- *)
 (* casts *)
 
@@ -50,8 +62,8 @@ Lemma should_trigger_agrees c d r number time :
 Proof.
   unfold should_trigger, gen_should_trigger.
   destruct (resolve_decryptable_eon c d (ir_eon r)) as [e|]; [|reflexivity].
-  rewrite Z.gtb_ltb, Z.geb_leb. change (gen_to_int64 time) with (to_i64 time). cbn [negb].
-  destruct (to_i64 number <? eo_activation e), (to_i64 time <=? ir_timestamp r); reflexivity.
+  rewrite Z.gtb_ltb, Z.geb_leb. change gen_to_int64 with to_i64. cbn [negb].
+  split_atoms.
 Qed.
 
 (* ------------------------------------------------------------------------------------- *)
@@ -72,10 +84,8 @@ Lemma resolve_agrees c d idx :
   then latest_eon d idx else None.
 Proof.
   unfold resolve_decryptable_eon, gen_resolve_decryptable, found, config_found, is_keyper, dkg_success_of.
-  destruct (latest_eon d idx) as [e|]; [|reflexivity].
-  destruct (get_keyper_index d idx (me c)); try reflexivity.
-  destruct (dkg_for_config d idx) as [k|]; [|reflexivity].
-  destruct (dk_success k); reflexivity.
+  destruct (latest_eon d idx) as [e|], (get_keyper_index d idx (me c)), (dkg_for_config d idx) as [k|];
+    try destruct (dk_success k); reflexivity.
 Qed.
 
 (* the queries inside it *)
@@ -88,7 +98,10 @@ Lemma latest_eon_step best e rest idx :
        | None => latest_eon_from (Some e) rest idx
        end
   else latest_eon_from best rest idx.
-Proof. reflexivity. Qed.
+Proof.
+  simpl. unfold gen_q_latest_eon_where, gen_q_latest_eon_before.
+  destruct best as [b|]; split_atoms.
+Qed.
 
 Lemma get_dkg_agrees d eon :
   get_dkg d eon = find (fun k => gen_q_dkg_result_where (dk_eon k) eon) (dkgs d).
@@ -135,7 +148,8 @@ Lemma prepare_time_based_agrees c d latest number time enum :
 Proof.
   unfold prepare_time_based, gen_early_return. cbv zeta.
   rewrite window_lo_agrees, select_rows_agrees.
-  destruct latest as [l|]; reflexivity.
+  change (gen_window_p2 time) with (to_i64 time). unfold gen_new_latest.
+  destruct latest as [l|]; split_atoms.
 Qed.
 
 (* the window query *)
@@ -143,8 +157,7 @@ Lemma window_where_agrees r lo hi :
   (lo <=? ir_timestamp r) && (ir_timestamp r <=? hi) && negb (ir_decrypted r)
   = gen_q_window_where (ir_timestamp r) (ir_decrypted r) lo hi.
 Proof.
-  unfold gen_q_window_where.
-  destruct (lo <=? ir_timestamp r), (ir_timestamp r <=? hi), (ir_decrypted r); reflexivity.
+  unfold gen_q_window_where. destruct (ir_decrypted r); split_atoms.
 Qed.
 
 Fixpoint insert_by {A} (before : A -> A -> bool) (x : A) (l : list A) : list A :=
@@ -185,7 +198,7 @@ Lemma active_triggers_agrees d start :
                      (existsb (ft_match (et_eon e) (et_identity e)) (fts d)) start) (ets d).
 Proof.
   unfold active_triggers. apply filter_ext. intros e. unfold gen_q_active_where.
-  destruct (start <=? et_expiration e), (et_decrypted e), (existsb _ (fts d)); reflexivity.
+  destruct (et_decrypted e), (existsb _ (fts d)); split_atoms.
 Qed.
 
 Lemma active_param_agrees start : 0 <= start < 2^63 -> gen_active_param start = start.
@@ -196,8 +209,8 @@ Proof. intros H. unfold gen_active_param. change (gen_to_int64 start) with (to_i
 Lemma log_expiry_agrees lblk expi :
   0 <= expi < 2^63 -> (lblk <=? expi) = negb (gen_log_expired lblk expi).
 Proof.
-  intros H. unfold gen_log_expired. rewrite Z.mod_small by lia.
-  rewrite Z.leb_antisym. reflexivity.
+  intros H. unfold gen_log_expired. rewrite ?(Z.mod_small expi 18446744073709551616) by lia.
+  split_atoms.
 Qed.
 
 Lemma log_hits_agrees start end_ e leon lid lblk :
@@ -220,9 +233,7 @@ Lemma eon_for_block_step best e rest blk :
   else eon_for_block_from best rest blk.
 Proof.
   simpl. unfold gen_q_eon_for_block_where, gen_q_eon_for_block_before.
-  destruct (eo_activation e <=? blk); [|reflexivity].
-  destruct best as [b|]; [|reflexivity].
-  rewrite (Z.eqb_sym (eo_activation b) (eo_activation e)). reflexivity.
+  destruct best as [b|]; split_atoms.
 Qed.
 
 (* ------------------------------------------------------------------------------------- *)
